@@ -68,6 +68,7 @@ class SimRaw(io.RawIOBase):
     def write(self, b):
         if not self._w:
             raise io.UnsupportedOperation("not writable")
+        self.fs._yp("write", self.path)
         i = self.nwrite
         self.nwrite += 1
         self.fs.stats["raw_write_calls"] += 1
@@ -97,6 +98,7 @@ class SimRaw(io.RawIOBase):
     def readinto(self, b):
         if not self._r:
             raise io.UnsupportedOperation("not readable")
+        self.fs._yp("read", self.path)
         i = self.nread
         self.nread += 1
         self.fs.stats["raw_read_calls"] += 1
@@ -118,6 +120,7 @@ class SimRaw(io.RawIOBase):
 
     def close(self):
         if not self.closed:
+            self.fs._yp("close", self.path)
             self.fs.last_counts[self.path] = (self.nwrite, self.nread)
             if self._w:
                 self.fs.last_write_calls = self.nwrite
@@ -146,6 +149,15 @@ class SimFS:
         self._orig_exists = None
         self._orig_isfile = None
         self.sim_cwd = None
+        # concurrent clients (fsim_conc): `hook(label, path)` is called before every operation
+        # on the simulated tree takes effect - the scheduler's pre-emption points - and
+        # `plan_hook(path, kind)` supplies the fault plan of the client that opens a file
+        self.hook = None
+        self.plan_hook = None
+
+    def _yp(self, label, path=None):
+        if self.hook is not None:
+            self.hook(label, path)
 
     # -- plumbing -----------------------------------------------------------------
     def key(self, path):
@@ -184,6 +196,8 @@ class SimFS:
             return fs.open(fs.key(file), mode, buffering, encoding, errors, newline)
 
         def sim_exists(p):
+            if fs.owns(p):
+                fs._yp("exists", p)
             if fs.real_dir and fs.owns(p):
                 return fs.key(p) == fs.root or fs._orig_exists(fs._real(p))
             if fs.owns(p):
@@ -191,6 +205,8 @@ class SimFS:
             return fs._orig_exists(p)
 
         def sim_isfile(p):
+            if fs.owns(p):
+                fs._yp("isfile", p)
             if fs.real_dir and fs.owns(p):
                 return fs._orig_isfile(fs._real(p))
             if fs.owns(p):
@@ -212,6 +228,8 @@ class SimFS:
             return x.decode() if isinstance(x, bytes) else x
 
         def sim_replace(src, dst, *a, **k):
+            if fs.owns(src) or fs.owns(dst):
+                fs._yp("replace", src)
             if fs.real_dir and (fs.owns(src) or fs.owns(dst)):
                 return self._orig_os["replace"](fs._real(src) if fs.owns(src) else src, fs._real(dst) if fs.owns(dst) else dst)
             if fs.owns(src) or fs.owns(dst):
@@ -225,6 +243,8 @@ class SimFS:
             return self._orig_os["replace"](src, dst, *a, **k)
 
         def sim_remove(path, *a, **k):
+            if fs.owns(path):
+                fs._yp("remove", path)
             if fs.real_dir and fs.owns(path):
                 return self._orig_os["remove"](fs._real(path))
             if fs.owns(path):
@@ -246,11 +266,15 @@ class SimFS:
 
         def sim_listdir(path="."):
             if fs.owns(path):
+                fs._yp("listdir", path)
+            if fs.owns(path):
                 pre = _p(path).rstrip("/") + "/"
                 return sorted({f[len(pre) :].split("/")[0] for f in fs.files if f.startswith(pre)})
             return self._orig_os["listdir"](path)
 
         def sim_stat(path, *a, **k):
+            if fs.owns(path):
+                fs._yp("stat", path)
             if fs.real_dir and fs.owns(path) and _p(path) != fs.root:
                 return self._orig_os["stat"](fs._real(path))
             if fs.owns(path):
@@ -319,6 +343,7 @@ class SimFS:
         return os.path.join(self.real_dir, self.key(path)[len(self.root) :].lstrip("/").replace("/", "__"))
 
     def open(self, path, mode="r", buffering=-1, encoding=None, errors=None, newline=None):
+        self._yp("open", path)
         self.stats["opens"] += 1
         if self.real_dir:
             self.armed.pop(path, None)
@@ -340,6 +365,8 @@ class SimFS:
         if plan is None:
             kind_ = "w" if (writing or appending or creating or plus) else "r"
             plan = self.armed_next.pop(kind_, None)
+            if plan is None and self.plan_hook is not None:
+                plan = self.plan_hook(path, kind_)
         if plan and plan.get("fail_open"):
             self.stats["open_errors_injected"] += 1
             raise OSError(plan.get("errno", errno.EACCES), "injected open error", path)
